@@ -179,7 +179,7 @@ func checkC20(c *Ctx) {
 				r.Ob("SINKS-COMPLETE", key, t.Pos(pos), false, fmt.Sprintf("receives Point.%s, expected Point.%s", gf, want))
 				return
 			}
-			r.Ob("SINKS-COMPLETE", key, t.Pos(pos), true, "receives Point."+gf+" through "+gc.Call.StaticCallee().Name()+"()")
+			r.Ob("SINKS-COMPLETE", key, t.Pos(pos), true, "receives Point."+gf+" through "+fnName(gc.Call.StaticCallee())+"()")
 			okAfter := gc.Call.Args[0] == ptArg && precedes(rc, gc)
 			r.Ob("SNAPSHOT-AFTER-RUN", key, t.Pos(gc.Pos()), okAfter, "the accessor must be called on the point handed to script.Run, after the run")
 			return
@@ -373,7 +373,7 @@ func checkC20(c *Ctx) {
 				found = true
 				a0 := actual(ic, call.Call.Args[0])
 				if ex, ok := a0.(*ssa.Extract); ok && ex.Index == 0 {
-					if rc, ok := ex.Tuple.(*ssa.Call); ok && rc.Call.StaticCallee() != nil && rc.Call.StaticCallee().Name() == "ReadFile" && strings.HasSuffix(path(rc.Call.Args[0]), ".Input") {
+					if rc, ok := ex.Tuple.(*ssa.Call); ok && rc.Call.StaticCallee() != nil && fnName(rc.Call.StaticCallee()) == "ReadFile" && strings.HasSuffix(path(rc.Call.Args[0]), ".Input") {
 						okBytes = true
 					}
 				}
@@ -483,7 +483,7 @@ func c20Select(c *Ctx, ls *ssa.Function) {
 				}
 			}
 		case *ssa.Extract:
-			if call, ok := x.Tuple.(*ssa.Call); ok && call.Call.StaticCallee() != nil && call.Call.StaticCallee().Name() == "ReadPlScriptFromDir" {
+			if call, ok := x.Tuple.(*ssa.Call); ok && call.Call.StaticCallee() != nil && fnName(call.Call.StaticCallee()) == "ReadPlScriptFromDir" {
 				fromDir = true
 			}
 		case *ssa.UnOp:
